@@ -351,6 +351,7 @@ def prove_pairs(chk, cname, pairs, facts, replay_for, key_for, sample=None):
                     ok = False
                     continue
         rest.append((lab, impl, ref))
+    _translator_validation(chk, cname, rest, replay_for)
     eqs = [(lab, _eq_term(impl, ref)) for lab, impl, ref in rest]
     if not eqs:
         return ok
@@ -374,6 +375,58 @@ def prove_pairs(chk, cname, pairs, facts, replay_for, key_for, sample=None):
     finally:
         chk.prover.timeout_ms = old
     return ok
+
+
+def _translator_validation(chk, cname, pairs, replay_for):
+    """Serval-style validation of the encoding: the harness is re-run on plain floats at the run's witness point (real code,
+    no proxies, no stubs) and every implementation value must agree with the witness carried by the corresponding z3 term.
+    Done for the first few cases of each check (3 quick / 25 thorough); a mismatch is a harness error (inconclusive)."""
+    from . import real as _real
+    from . import stubs as _stubs
+    from .real import S
+
+    limit = 3 if chk.tier == "quick" else 25
+    if getattr(chk, "_nval", 0) >= limit or not pairs:
+        return
+    try:
+        rep = replay_for(pairs[0][0])(None)
+    except Exception:  # noqa
+        return
+    if rep is None:
+        return
+    fn = chk.replayers.get(rep[0] + ":pairs")
+    if fn is None:
+        return
+    chk._nval = getattr(chk, "_nval", 0) + 1
+    prev_ctx, _real._CUR[0] = _real._CUR[0], None
+    try:
+        with _stubs.suspended():
+            fpairs = fn(rep[1])
+    except Exception as e:  # noqa
+        chk.notes.append(f"translator validation could not run for {cname}: {e!r}")
+        return
+    finally:
+        _real._CUR[0] = prev_ctx
+    fmap = {lab: impl for lab, impl, _ in fpairs}
+    n = bad = 0
+    for lab, impl, _ in pairs:
+        if lab not in fmap or isinstance(impl, bool) or isinstance(fmap[lab], bool):
+            continue
+        try:
+            w = float(S.lift(impl).w)
+            f = float(fmap[lab])
+        except Exception:  # noqa
+            continue
+        n += 1
+        if abs(w - f) > 1e-6 * max(1.0, abs(f)):
+            bad += 1
+            if bad <= 3:
+                chk.inconclusive.append(f"translator validation: {cname}: {lab}: z3-term witness {w} != float run of the real code {f}")
+    d = chk.sections.setdefault("translator_validation", {"cases": 0, "values_compared": 0, "mismatches": 0})
+    d["cases"] += 1
+    d["values_compared"] += n
+    d["mismatches"] += bad
+    chk.validated += n
 
 
 def float_pairs_differ(pairs, label=None, rtol=1e-9):
